@@ -155,6 +155,26 @@ func buildBodyTypes(api *expr.APIExpr) (map[string]map[string]*EndpointBodies, m
 // attributes are limited to the ones that all the views of the result type
 // have.
 func inAllViews(att *expr.AttributeExpr, rt *expr.ResultTypeExpr) *expr.AttributeExpr {
+	if arr := expr.AsArray(rt.Type); arr != nil {
+		// Collection of result types: the elements are rendered with any
+		// of the views of the element type.
+		ert, ok := arr.ElemType.Type.(*expr.ResultTypeExpr)
+		if !ok {
+			return att
+		}
+		elem := inAllViews(arr.ElemType, ert)
+		if elem == arr.ElemType {
+			return att
+		}
+		dup := expr.Dup(rt).(*expr.ResultTypeExpr)
+		expr.AsArray(dup.Type).ElemType = elem
+		return &expr.AttributeExpr{
+			Type:         dup,
+			Description:  att.Description,
+			Meta:         att.Meta,
+			UserExamples: att.UserExamples,
+		}
+	}
 	if rt.Validation == nil || len(rt.Validation.Required) == 0 {
 		return att
 	}
